@@ -62,6 +62,8 @@ type Endpoint struct {
 	ebuf bytes.Buffer
 
 	In, Out int64 // atomic plaintext byte counters
+	paused  int32 // atomic: the reader stops reading (a peer that no longer reads)
+	stopped int32 // atomic: session over, a paused reader gives up
 
 	mu  sync.Mutex
 	obs Obs
@@ -129,8 +131,19 @@ func (e *Endpoint) WriteRaw(b []byte) error {
 	return err
 }
 
+// Pause makes the reader goroutine stop reading (after the read it may
+// currently be blocked in). Stop ends a paused reader.
+func (e *Endpoint) Pause() { atomic.StoreInt32(&e.paused, 1) }
+func (e *Endpoint) Stop()  { atomic.StoreInt32(&e.stopped, 1) }
+
 func (e *Endpoint) readLoop() {
 	for {
+		for atomic.LoadInt32(&e.paused) != 0 {
+			if atomic.LoadInt32(&e.stopped) != 0 {
+				return
+			}
+			time.Sleep(time.Millisecond)
+		}
 		f, err := e.fr.ReadFrame()
 		if err != nil {
 			e.MarkReadDone(err)
